@@ -55,7 +55,7 @@ CHECKS = {
     "C07": ("Hypothesis-generated configurations and histories (incl. 1e3-1e5 step sweeps and sdeint-driven schedules) "
             "run under a recursion limit of depth+250 and a per-call node-creation budget",
             "Generated-input search with deterministic resource oracles (recursion head-room, node budget, cache "
-            "occupancy); five root causes D4-D8 were found this way and repaired; held on everything generated since.",
+            "occupancy, tensors kept alive); seven root causes D4-D8, D11, D14 were found this way and repaired; held on everything generated since.",
             "Non-termination is decided by a work counter (2e5 tree nodes per call), never by a clock; cache occupancy "
             "is read from a private dict.",
             "DESIGN.md §4 C07"),
@@ -70,7 +70,7 @@ CHECKS = {
             "values; gradient bookkeeping",
             "Generated-input search: adjoint gradients vs autograd through the closed-form solution on the same "
             "Brownian object (RMS over 512 paths, slope >= 0.35/0.75), forward values bit-identical to sdeint, only "
-            "requested tensors receive gradients (known finding D10 listed).",
+            "requested tensors receive gradients (known finding D10 listed; D13 - doubled gradient for a tensor listed twice - found and repaired).",
             "Order-0.5 adjoints cannot resolve sub-percent formula errors end-to-end (C11 covers the formulas).",
             "DESIGN.md §4 C09"),
     "C10": ("Hypothesis-generated SDE programs on dyadic grids; differential oracle adjoint_reversible_heun vs backprop",
@@ -81,7 +81,7 @@ CHECKS = {
     "C11": ("Hypothesis-generated SDE programs/augmented states; independent construction of the adjoint fields (plain "
             "autograd VJPs + generic Stratonovich->Ito conversion by central differences) compared with AdjointSDE",
             "Generated-input search with an independently derived oracle at 1e-7 (worst observed 3e-10); graph discipline "
-            "under no_grad / second derivative under grad checked.",
+            "under no_grad / second derivative under grad checked. Found D12 (graph kept under no_grad when g returns its input).",
             "First derivatives from torch.autograd (cross-checked by finite differences), second-order terms by central "
             "differences eps=1e-5.",
             "DESIGN.md §4 C11"),
@@ -89,7 +89,7 @@ CHECKS = {
             "+ metamorphic comparison with the run whose ts is the grid",
             "Generated-input search: query log equals the prescribed grid, grid-time outputs bit-identical, interior "
             "outputs equal the recomputed linear interpolant (4 ulp), values at shared times invariant.",
-            "Reference trajectory is the same code run with ts = grid; the grid rule is recomputed independently.",
+            "Reference trajectory: the solver class stepped by the harness's own loop over the recorded grid (bit-for-bit), plus the same code run with ts = grid; the grid rule is recomputed independently.",
             "DESIGN.md §4 C12"),
     "C13": ("Hypothesis-generated restart points on the recorded step grid; differential one-shot vs chunked runs",
             "Generated-input search: states, extra solver state and Brownian query log bit-identical for 1-5 chunks, all "
